@@ -28,6 +28,11 @@ impl<'c> Coils<'c> {
         (0..packed_len).for_each(|idx| {
             buf[idx] = self.data[idx];
         });
+        // the unused bits of the last byte are zero on the wire
+        let used_bits = self.quantity % 8;
+        if used_bits != 0 {
+            buf[packed_len - 1] &= (1 << used_bits) - 1;
+        }
     }
 
     /// Quantity of coils
